@@ -94,7 +94,12 @@ def arith_items(rng, n):
         fxm, fym = f(), f()
         op = rng.choice('+-*')
         intrepr = rng.random() < 0.12      # integer formats holding integer values, computed by the value method (NumPy integer arithmetic on the values)
-        if intrepr: fxm = (fxm[0], fxm[1], 0); fym = (fym[0], fym[1], 0)
+        if intrepr:
+            fxm = (fxm[0], fxm[1], 0); fym = (fym[0], fym[1], 0)
+            if rng.random() < 0.5:
+                # operand words adding up to 62..66 bits: the window in which a product first leaves int64 / uint64
+                tot = rng.choice([62, 63, 64, 64, 65, 66]); nwx = rng.randint(2, tot - 2); sg = rng.random() < 0.3
+                fxm = (sg and rng.random() < 0.5, nwx, 0); fym = (sg and rng.random() < 0.5, tot - nwx, 0); op = rng.choice('**+-')
         def codes(fm):
             lo, hi = S.fmt_bounds(fm[0], fm[1])
             k = rng.random()
